@@ -22,7 +22,7 @@ import re
 from ..common import Check, coq_eval, harness
 from .. import rqcoq
 from ..programs import POOL
-from . import c16_gen, c16_wf
+from . import c16_gen, c16_wf, c16_trace
 
 TRUSTED = [
     "Coq 8.16.1 kernel (coqc, vm_compute); no axioms: every theorem is 'Closed under the global context'",
@@ -323,6 +323,84 @@ def run():
         except RuntimeError as ex:
             ck.coverage["model_eval_error"] = str(ex)[-600:]
     ck.coverage["coq_evaluated"] = coq_ok
+
+    # ---------------------------------------------------------------- 3b. the Lowerer machine against lowering.rs, operation by operation
+    # hook `lowerer-op-trace`: every operation on the Lowerer's id state, in order -> operations of Model/Lowerer.v with what the
+    # code observed -> replay_verdict evaluated inside Coq: every operation must be a step of the machine, the state after it must
+    # show the observed ids / transform / redirect map, and the finished run must BE the RQ the implementation returned
+    tr = harness("c16_trace", [{"src": p} for p, _ in accepted])
+    cases, nohook = [], 0
+    norm_of = dict(accepted)
+    for (p, q), a in zip(accepted, tr):
+        ck.count("lowerer-op-trace", p)
+        if "ok" not in a:
+            ck.violation("pl_to_rq accepted this program once and not the second time (c16_rq vs c16_trace)", {"program": p, "answer": {k: v for k, v in a.items() if k != "ops"}})
+            continue
+        if a.get("bad_ops"):
+            ck.violation("hook lowerer-op-trace logged a line that is not JSON", {"program": p, "lines": a["bad_ops"][:3]})
+            continue
+        if not a.get("ops"):
+            nohook += 1
+            continue
+        try:
+            q2 = rqcoq.norm(a["ok"])
+        except rqcoq.RqConvError as ex:
+            ck.violation("RQ JSON has a node the model does not know: %s" % ex, {"program": p})
+            continue
+        if q2 != q:
+            ck.violation("two compilations of one program give different RQs (ids are not a function of the program)", {"program": p})
+            continue
+        try:
+            term, nops, hist = c16_trace.to_ops(a["ops"], a["ok"])
+        except (c16_trace.TraceError, rqcoq.RqConvError, KeyError, TypeError) as ex:
+            ck.stat("lowerer-op-trace", "TRACE-DOES-NOT-PARSE")
+            ck.violation("the op trace of lowering.rs does not parse into operations of the Lowerer machine (hook or lowering.rs changed?): %s" % ex,
+                         {"program": p, "error": str(ex), "events": [e.get("op") for e in a["ops"]][:80]})
+            continue
+        for k, v in hist.items():
+            ck.stat("lowerer-op-trace", "op:" + k, v)
+        cases.append((p, term, rqcoq.to_coq(q), nops, a))
+    if nohook:
+        # fail closed: without the hook there is no trace, and nothing was compared
+        ck.violation("hook `lowerer-op-trace` (verif:lowerer_op lines of semantic/lowering.rs, /repo 120eb8c) logged nothing for %d accepted program(s): "
+                     "the Lowerer machine was NOT compared with the code" % nohook, {"programs_without_trace": nohook}, no_input=True)
+    trace_ok = 0
+    if cases and coq_ok:
+        try:
+            vals = coq_eval(c16_trace.COQ_HEADER, ["(replay_verdict %s %s)" % (t, qc) for _, t, qc, _, _ in cases])
+        except RuntimeError as ex:
+            vals = None
+            ck.coverage["trace_eval_error"] = str(ex)[-600:]
+            ck.violation("the op-trace replay could not be evaluated in Coq", {"error": str(ex)[-600:]}, no_input=True)
+        for (p, term, qc, nops, a), v in zip(cases, vals or []):
+            if v == 0:
+                trace_ok += 1
+                ck.stat("lowerer-op-trace", "agrees")
+            else:
+                ck.stat("lowerer-op-trace", "DISAGREES")
+                where = ("operation %d of %d is not a step of the machine, or the state after it does not show what the code observed" % (v - 1, nops)) if isinstance(v, int) and v <= nops \
+                    else "all %d operations agree but the finished run is not the RQ the implementation returned" % nops
+                ck.violation("Model/Lowerer.v disagrees with semantic/lowering.rs: %s" % where,
+                             {"program": p, "verdict": v, "operations": nops, "events": a["ops"][:120]})
+        # the comparison has teeth: a trace with one id changed, one event dropped or one redirect pair removed must NOT replay
+        muts, meta = [], []
+        for p, term, qc, nops, a in cases[:ck.n(60, 400)]:
+            for name, ops2 in c16_trace.perturbations(a["ops"], ck.rng):
+                try:
+                    t2, _, _ = c16_trace.to_ops(ops2, a["ok"])
+                except (c16_trace.TraceError, rqcoq.RqConvError, KeyError, TypeError):
+                    ck.count("op-trace-selftest", p + "|" + name)
+                    ck.stat("op-trace-selftest", name + ":rejected-by-grammar")
+                    continue
+                muts.append("(replay_ok %s %s)" % (t2, qc))
+                meta.append((p, name))
+        if muts:
+            for (p, name), v in zip(meta, coq_eval(c16_trace.COQ_HEADER, muts)):
+                ck.count("op-trace-selftest", p + "|" + name)
+                ck.stat("op-trace-selftest", name + (":rejected-by-replay" if v is False else ":ACCEPTED"))
+                if v is not False:
+                    ck.violation("the op-trace replay accepts a corrupted trace (%s): the correspondence check is not discriminating" % name, {"program": p, "perturbation": name})
+    ck.coverage["op_trace"] = {"programs_replayed": len(cases), "agree": trace_ok, "operations": sum(c[3] for c in cases), "programs_without_trace": nohook}
 
     # ---------------------------------------------------------------- 4. feed each accepted RQ to the SQL back end
     reqs = [{"src": p, "target": "sql.sqlite"} for p, _ in accepted]
